@@ -40,7 +40,7 @@ META = {
             "than classes.",
     "assumptions": ["reduction:none with the DFS explorer and no strategy enumerates every maximal execution",
                     "a complete execution is a terminal state logged from the on_mc_quiescent hook (no enabled actor)"],
-    "ready": False,
+    "ready": True,
 }
 
 # (name, spec, pinned uniform configurations (explorer, rand-seed))
